@@ -87,6 +87,16 @@ pub trait ParseAttribute: Sized {
     fn parse_nested(&mut self, mi: &syn::Meta) -> Result<()>;
 }
 
+/// The error for a tuple struct or tuple variant with a number of fields other than one.
+pub(crate) fn unsupported_tuple_error() -> Error {
+    use crate::util::{Shape, ShapeSet};
+
+    Error::unsupported_shape_with_expected(
+        Shape::Tuple.description(),
+        &ShapeSet::new(vec![Shape::Named, Shape::Newtype, Shape::Unit]),
+    )
+}
+
 fn parse_attr<T: ParseAttribute>(attr: &syn::Attribute, target: &mut T) -> Result<()> {
     // Read the attribute before creating the accumulator, so that an attribute which is not
     // a list of meta items is reported as an error instead of tripping the accumulator's drop check.
@@ -138,6 +148,18 @@ pub trait ParseData: Sized {
             }
             Data::Union(_) => unreachable!(),
         };
+
+        // A tuple struct can only be represented when it is a newtype; the generated code
+        // builds every other receiver field by field, by name.
+        if let Data::Struct(syn::DataStruct {
+            fields: Fields::Unnamed(ref fields),
+            ..
+        }) = *body
+        {
+            if fields.unnamed.len() != 1 {
+                errors.push(unsupported_tuple_error().with_span(fields));
+            }
+        }
 
         self.validate_body(&mut errors);
 
